@@ -17,10 +17,12 @@ type recorder struct {
 	writes map[string][]string // heap name -> array/ref terms written
 	alloc  bool
 	ghosts map[string]bool
+	noted   map[string]bool // heaps for which the written id was recorded before the heapSet
+	unknown map[string]bool // heaps written without a recorded id: no frame can be inferred
 }
 
 func newRecorder() *recorder {
-	return &recorder{vars: map[types.Object]bool{}, heaps: map[string]bool{}, writes: map[string][]string{}, ghosts: map[string]bool{}}
+	return &recorder{vars: map[types.Object]bool{}, heaps: map[string]bool{}, writes: map[string][]string{}, ghosts: map[string]bool{}, noted: map[string]bool{}, unknown: map[string]bool{}}
 }
 
 type loopParts struct {
@@ -77,6 +79,9 @@ func (st *State) dryRun(lp *loopParts) *recorder {
 			lp.cond(s)
 		}
 		for _, o := range lp.body(s) {
+			if o.kind == oNormal {
+				o.st.runAnchor(fmt.Sprintf("loop%d.body-end", lp.ord), lp.pos+1)
+			}
 			if (o.kind == oNormal || o.kind == oContinue) && lp.post != nil {
 				lp.post(o.st)
 			}
@@ -153,7 +158,7 @@ func (st *State) runLoop(lp *loopParts) []Outcome {
 			oldH := st.heapGet(n, srt)
 			newH := h.heapHavoc(n, srt)
 			// automatic frame: rows/refs that the body cannot reach are unchanged
-			ok := true
+			ok := !rec.unknown[n]
 			var ws []string
 			for _, w := range rec.writes[n] {
 				if termIsOlderThan(w, counterBefore) {
@@ -204,9 +209,19 @@ func (st *State) runLoop(lp *loopParts) []Outcome {
 	if spec.Decreases != nil {
 		dec0 = bodyState.define("variant", "Int", envAt(bodyState).eval(spec.Decreases.Expr).S)
 	}
+	if fc.suppress == 0 {
+		// vacuity cover: invariant /\ condition must be satisfiable, otherwise every inv-preserved obligation is void
+		cov := &Obligation{Name: fc.Name + "/vacuity/" + tag + "-body-reachable", Kind: "vacuity", Func: fc.Name, Decls: append([]string(nil), fc.decls...), Facts: append(bodyState.facts.slice(), bodyState.guard...), Goal: "false", Expect: "sat"}
+		fc.obls = append(fc.obls, cov)
+	}
 	fc.loopDepth++
 	bouts := lp.body(bodyState)
 	fc.loopDepth--
+	for _, o := range bouts {
+		if o.kind == oNormal {
+			o.st.runAnchor(tag+".body-end", lp.pos+1)
+		}
+	}
 	for _, o := range bouts {
 		switch {
 		case o.kind == oNormal || (o.kind == oContinue && (o.label == "" || o.label == lp.label)):
@@ -234,6 +249,11 @@ func (st *State) runLoop(lp *loopParts) []Outcome {
 	}
 	if spec.Decreases == nil && !(fc.Contract != nil && fc.Contract.NoTerm) {
 		fc.noteAssumption(fmt.Sprintf("termination of %s/%s is not proved (no decreases clause)", fc.Name, tag))
+	}
+	for _, o := range outs {
+		if o.kind == oNormal {
+			o.st.runAnchor(tag+".after", lp.pos+1)
+		}
 	}
 	return outs
 }
@@ -362,7 +382,10 @@ func (st *State) execFor(x *ast.ForStmt, label string) []Outcome {
 	if x.Cond != nil {
 		lp.cond = func(s *State) string { return s.eval(x.Cond).S }
 	}
-	lp.body = func(s *State) []Outcome { return s.exec(x.Body) }
+	lp.body = func(s *State) []Outcome {
+		s.runAnchor(fmt.Sprintf("loop%d.body-begin", ord), x.Body.Lbrace+1)
+		return s.exec(x.Body)
+	}
 	if x.Post != nil {
 		lp.post = func(s *State) []Outcome { return s.exec(x.Post) }
 	}
@@ -479,6 +502,7 @@ func (st *State) execRange(x *ast.RangeStmt, label string) []Outcome {
 				s.fc.rec.vars[valObj] = true
 			}
 		}
+		s.runAnchor(fmt.Sprintf("loop%d.body-begin", ord), x.Body.Lbrace+1)
 		return s.exec(x.Body)
 	}
 	lp.post = func(s *State) []Outcome {
